@@ -113,8 +113,9 @@ CLAIMED['C07'] = dict(
          'parked receive never yields nil: "Fatal error deadlock"; replayed natively). C07.K3 the wake-up step Vm::queue_blocked_fiber + '
          'Fiber::activate from MIR: for any run queue (0..2 fibers) satisfying the run-queue invariant (distinct, Pending, not the running '
          'fiber) and a waiter naming a parked fiber, a queued fiber or the running fiber, the invariant is kept without a host panic '
-         '(found and fixed F56: fiber queued twice / running fiber unblocked: panics from 8-line programs); a resumed fiber that used 0..2 '
-         'channels (views may share a queue, lists of <= 1 (quick) / 2 entries) is left in no waiter list, other waiters keep their order '
+         '(found and fixed F56: fiber queued twice / running fiber unblocked: panics from 8-line programs); Fiber::complete for a child whose '
+         'parent sleeps on a channel (0..2 channels, views may share a queue, lists of <= 1 (quick) / 2 entries): the parent link is the one '
+         'route that does not pop the waiter it resumes, so the parent is taken out of every waiter list there, other waiters keep their order '
          '(found and fixed F57: a waiter left behind resumed a fiber blocked in a synchronous send on another channel, which proceeded before '
          'its value was taken). Other blocking semantics that need the whole scheduler are C08 (not applicable).',
     note='Trusted: rustc MIR printer, mirsym, VecDeque modelled as a logical queue, Ref<ChannelWaiter> as identities, Z3.',
